@@ -103,6 +103,8 @@ def main(argv=None):
     sys.path.insert(0, "/repo/src")
     hs, mod = load(prop)
     hs = [h for h in hs if tier == "thorough" or h.tier == "quick"]
+    if os.environ.get("VF_THOROUGH_ONLY") and tier == "thorough":
+        hs = [h for h in hs if h.tier == "thorough"]      # smoke run of the harnesses the quick tier never executes
     if a.only:
         hs = [h for h in hs if fnmatch.fnmatch(h.id, a.only)]
     if not hs:
